@@ -176,6 +176,7 @@ PROPS = {
         "rule": ("rapid-generated cases: hook status mode (null, empty, nested, own conditions, own observedGeneration) x 2-5 syncs, each preceded by a live-parent change (spec edit, delete+recreate, status overwritten by someone) "
                  "with a possibly stale parent cache, and one fault (real conflict / parent deleted / parent replaced / 500 at the status PUT, 500 at a child write); non-trivial = a status write was attempted; distinct = distinct choice sequences"),
         "jobs": [
+            {"name": "c11-regress", "pkg": COMPOSITE, "tests": ["TestVerifC11Regressions"]},
             {"name": "c11-composite", "pkg": COMPOSITE, "tests": ["TestVerifC11Composite"],
              "checks": {"quick": 4000, "thorough": 200000}, "shards": {"quick": 8, "thorough": 12}},
         ],
